@@ -287,9 +287,30 @@ def klass(run, p, I, flags):
                    fn=f, detail={'examples': miss[:8]} if miss else None)
     # the coarse classifier classifies *by* the class regex: holds by construction if it tests cat.re_single
     g = p.method('Extractor', 'coarse_classify_char')
-    src = ast.unparse(g.node)
-    run.ob('C03-CLASS', 'coarse_classify_char', 're.match(cat.re_single, c)' in src and 'return cat.code' in src,
-           'the coarse classifier returns the code of the category whose own regex matched the character', fn=g, nontrivial=False)
+    import re as _re
+    probs = []
+    samples = ['a', 'Z', 'm', '0', '7', ' ', '\t', '\n', '-', '_', '.', ',', '/', '\\', '"', "'", '(', '*', '\u00e9', '\u00df', '\u0416', '\u4e2d', '\u0663', '\u00b2', '\x00', '~']
+    from .rexpy_eval import _interp as _real_re_interp
+    for extra in EXTRA_CONFIGS[:2]:
+        cats, o = categories(p, _real_re_interp(p), extra)      # (with the real re module: the category objects hold compiled patterns)
+        code_re = {}
+        for cname, cobj in o.attrs.items():
+            if hasattr(cobj, 'attrs') and 'code' in cobj.attrs and 're_single' in cobj.attrs:
+                code_re.setdefault(cobj.attrs['code'], []).append(cobj.attrs['re_single'])
+        for ch in samples:
+            self_o = Obj(g.cls)
+            self_o.attrs['Cats'] = o
+            J = _real_re_interp(p)
+            try:
+                code = J.call(g, [ch], selfobj=self_o)
+            except (Unsupported, Raised) as e:
+                raise AnalysisError('coarse_classify_char is not evaluable on %r: %s' % (ch, e))
+            res = [getattr(r, 'pattern', r) for r in code_re.get(code, [])]
+            if not res or not any(_re.match(r, ch, flags) for r in res):
+                probs.append('%r is given the code %r, whose own regex %s does not match it' % (ch, code, res[:1]))
+    run.ob('C03-CLASS', 'coarse_classify_char', not probs,
+           'the coarse classifier returns the code of a category whose own regex matches the character (evaluated on %d characters)%s'
+           % (len(samples), '' if not probs else ': ' + probs[0]), fn=g, nontrivial=False)
     run.floor('C03-CLASS', n, 24)
 
 
